@@ -205,7 +205,9 @@ def gen_step(rng: random.Random, kind: str, sp: t.List[str], allnames: t.Set[str
         return {"k": "where", "ref": variant(rng, rng.choice(sp))}
     if kind == "orderBy":
         ref = variant(rng, rng.choice(sp))
-        how = rng.choice(["name", "col", "desc"])
+        how = rng.choice(["name", "col", "desc", "expr"])
+        if how == "expr" and reserved(ref):
+            how = "desc"  # the rendered text of an expression over a reserved word does not parse either
         if had_join and reserved(ref):
             # after a join the column may be rendered table-qualified (then its text parses): depends on the wrap rule
             how = "desc"
@@ -332,6 +334,8 @@ def apply_step(df: t.Any, s: dict) -> t.Any:
             return df.orderBy(s["ref"])
         if s["how"] == "col":
             return df.orderBy(F.col(s["ref"]))
+        if s["how"] == "expr":
+            return df.orderBy(F.col(s["ref"]) + 1)
         return df.orderBy(F.col(s["ref"]).desc())
     if k == "limit":
         return df.limit(5)
@@ -465,15 +469,15 @@ def lean_req(i: int, c: dict, impl: dict) -> dict:
     }
 
 
-def order_by_spellings(c: dict) -> t.List[t.List[t.List[int]]]:
-    """(current spelling, normalised name) of every column an orderBy refers to"""
+def order_by_spellings(c: dict) -> t.List[t.Any]:
+    """(is the key the bare column?, current spelling, normalised name) of every column an orderBy refers to"""
     out = []
     sp = list(c["create"])
     for s in c["steps"]:
         if s["k"] == "orderBy":
             cur = next((x for x in sp if low(x) == low(s["ref"])), None)
             if cur is not None:
-                out.append([[ord(ch) for ch in cur], [ord(ch) for ch in low(cur)]])
+                out.append([s["how"] != "expr", [[ord(ch) for ch in cur], [ord(ch) for ch in low(cur)]]])
         sp = spec_step(sp, s)
     return out
 
@@ -603,7 +607,7 @@ def show_step(s: dict) -> str:
     if k == "where":
         return f"where(col({s['ref']!r}).isNotNull() | col({s['ref']!r}).isNull())"
     if k == "orderBy":
-        return "orderBy(" + (repr(s["ref"]) if s["how"] == "name" else f"col({s['ref']!r})" + (".desc()" if s["how"] == "desc" else "")) + ")"
+        return "orderBy(" + (repr(s["ref"]) if s["how"] == "name" else f"col({s['ref']!r})" + (".desc()" if s["how"] == "desc" else (" + 1" if s["how"] == "expr" else ""))) + ")"
     if k == "limit":
         return "limit(5)"
     if k == "distinct":
@@ -693,7 +697,7 @@ def known_entries() -> t.Dict[str, dict]:
     if os.path.exists(p):
         for e in json.load(open(p)).get("findings", []):
             if e.get("property") == ID and e.get("status") == "open":
-                known.setdefault(e["id"], e)
+                known[e["id"]] = e  # a proposed (newer) entry replaces the merged one: witnesses are kept current here
     return known
 
 
@@ -802,10 +806,15 @@ def run(ctx: Ctx) -> None:
     model_mismatch = [r for r in res if r["model_notes"]]
     spec_mismatch = [r for r in res if r["spec_notes"]]
     new_viol = []
+    # a KNOWN-FINDING line is printed for a hypothesis only when a failure is attributable to it: it is the
+    # only violated hypothesis of some failing case, its recorded witness fails (below), or a failing case's
+    # violated hypotheses include none that is attributable on its own
+    explained = [r for r in spec_mismatch if r["scope"] and all(h in known for h in r["scope"]) and not r["model_notes"] and not r["structural"]]
+    alone = {r["scope"][0] for r in explained if len(r["scope"]) == 1}
     for r in spec_mismatch:
-        sc = r["scope"]
-        if sc and all(h in known for h in sc) and not r["model_notes"] and not r["structural"]:
-            for h in sc:
+        if r in explained:
+            hs = [h for h in r["scope"] if h in alone] or r["scope"]
+            for h in hs:
                 vlib.report_known(ctx, known[h], known[h]["summary"])
         else:
             new_viol.append(r)
